@@ -146,6 +146,8 @@ Proof.
     intros l Hl HPl. inversion Hl; subst. apply HP in HPl. lia.
   - (* Copy *) eapply inv_upd; [exact Hinv| |auto].
     intros l0 Hl HPl. inversion Hl; subst. apply HP in HPl. lia.
+  - (* CopyNone *) eapply inv_upd; [exact Hinv| |auto].
+    intros l0 Hl HPl. inversion Hl; subst. apply HP in HPl. lia.
   - (* Alias *) eapply inv_upd; [exact Hinv| |auto]. intros. apply Hmb. cbn. auto.
   - (* Unknown *) eapply inv_upd; [exact Hinv| |auto]. intros. apply Hmb. cbn. auto.
   - (* SeqN *)
@@ -235,6 +237,10 @@ Proof.
     + intros l0 Hl. eapply heap_upd_fresh; eauto.
     + eapply inv_upd; [exact Hinv| |intros; apply keep_remove; auto].
       intros l0 Hl HPl. inversion Hl; subst. apply HP in HPl. lia.
+  - (* CopyNone *) cbn in Hai. inversion Hai; subst T' R. cbn [st_of heap]. split.
+    + intros l0 Hl. eapply heap_upd_fresh; eauto.
+    + eapply inv_upd; [exact Hinv| |intros; apply keep_remove; auto].
+      intros l0 Hl HPl. inversion Hl; subst. apply HP in HPl. lia.
   - (* Alias *) cbn in Hai. inversion Hai; subst T' R. cbn [st_of heap]. split; [reflexivity|].
     destruct (mem y T) eqn:Ey.
     + eapply inv_upd; [exact Hinv|intros; apply mem_add_same|intros; apply keep_add; auto].
@@ -247,6 +253,8 @@ Proof.
     + intros l0 Hl0. unfold upd_heap. destruct (Nat.eqb l0 l) eqn:E; [|reflexivity].
       apply Nat.eqb_eq in E. subst. rewrite (Hinv x l H Hl0) in Ex. discriminate.
     + exact Hinv.
+  - (* MutateNone *) cbn in Hai. destruct (mem x T) eqn:Ex; [discriminate|]. inversion Hai; subst T' R.
+    split; [reflexivity|exact Hinv].
   - (* Return *) cbn in Hai. inversion Hai; subst T' R. cbn [st_of]. split; [reflexivity|].
     intros Hm l Hl HPl. rewrite (Hinv x l Hl HPl) in Hm. discriminate.
   - (* SeqN *)
@@ -473,6 +481,8 @@ Proof.
   - apply Hupd; exact Hz.
   - apply Hupd; exact Hz.
   - apply Hupd; exact Hz.
+  - apply Hupd; exact Hz.
+  - reflexivity.
   - reflexivity.
   - reflexivity.
   - apply Happ in Hz. destruct Hz as [Hz1 Hz2]. rewrite IHexec2, IHexec1; auto.
@@ -498,11 +508,11 @@ Proof.
   - apply orb_true_iff in Har. destruct Har as [Har|Har].
     + exfalso. exact (IHexec1 Har).
     + apply IHexec2. apply exec_flag in H. cbn [st_of] in H. rewrite H. exact Har.
-  - apply andb_true_iff in Har. destruct Har. auto.
-  - apply andb_true_iff in Har. destruct Har. auto.
-  - rewrite H in Har. rewrite <- H in Har. auto.
-  - rewrite H in Har. rewrite <- H in Har. auto.
-  - apply andb_true_iff in Har. destruct Har. auto.
+  - apply andb_true_iff in Har. destruct Har as [Ha Hb]. apply IHexec. exact Ha.
+  - apply andb_true_iff in Har. destruct Har as [Ha Hb]. apply IHexec. exact Hb.
+  - rewrite H in Har. apply IHexec. rewrite H. exact Har.
+  - rewrite H in Har. apply IHexec. rewrite H. exact Har.
+  - apply andb_true_iff in Har. destruct Har as [Ha Hb]. apply IHexec. exact Ha.
   - apply andb_true_iff in Har. destruct Har as [_ Har]. apply IHexec2.
     apply exec_flag in H. cbn [st_of] in H. rewrite H. exact Har.
 Qed.
@@ -515,8 +525,8 @@ Proof.
   specialize (Hsum fd Hl). apply andb_true_iff in Hsum. destruct Hsum as [_ Hk].
   unfold check_contract in Hk. rewrite Hc in Hk. cbn [negb orb] in Hk.
   destruct (fparams fd) as [|p ps]; [discriminate|].
-  destruct (must_alias prog (fbody fd) [p] false) as [M|]; [|discriminate].
-  exists p, ps, M. auto.
+  destruct (must_alias prog (fbody fd) [p] false) as [M|] eqn:Em; [|discriminate].
+  exists p, ps, M. repeat split; auto.
 Qed.
 
 Lemma must_sound : forall c s o, exec c s o ->
@@ -528,11 +538,11 @@ Lemma must_sound : forall c s o, exec c s o ->
     | Raised _ => True
     end.
 Proof.
-  assert (Hupd_add : forall (s : state) M x v0 h n f, (forall y, mem y M = true -> env s y = v0) ->
+  assert (Hupd_add : forall (s : state) M x v0 (h : loc -> val) n f, (forall y, mem y M = true -> env s y = v0) ->
             forall y, mem y (add x M) = true -> env (mkst (upd_env (env s) x v0) h n f) y = v0).
   { intros s M x v0 h n f HM y Hy. cbn [env]. unfold upd_env. rewrite mem_add in Hy.
     destruct (String.eqb y x); [reflexivity|]. cbn [orb] in Hy. auto. }
-  assert (Hupd_rem : forall (s : state) M x v v0 h n f, (forall y, mem y M = true -> env s y = v0) ->
+  assert (Hupd_rem : forall (s : state) M x v v0 (h : loc -> val) n f, (forall y, mem y M = true -> env s y = v0) ->
             forall y, mem y (remove x M) = true -> env (mkst (upd_env (env s) x v) h n f) y = v0).
   { intros s M x v v0 h n f HM y Hy. cbn [env]. unfold upd_env. rewrite mem_remove in Hy.
     apply andb_true_iff in Hy. destruct Hy as [Hy1 Hy2].
@@ -541,11 +551,13 @@ Proof.
   - (* Skip *) cbn in Hmu. inversion Hmu; subst M'. exact HM.
   - (* Fresh *) cbn in Hmu. inversion Hmu; subst M'. eapply Hupd_rem; eauto.
   - (* Copy *) cbn in Hmu. inversion Hmu; subst M'. eapply Hupd_rem; eauto.
+  - (* CopyNone *) cbn in Hmu. inversion Hmu; subst M'. eapply Hupd_rem; eauto.
   - (* Alias *) cbn in Hmu. inversion Hmu; subst M'. destruct (mem y M) eqn:Ey.
     + rewrite (HM y Ey). eapply Hupd_add; eauto.
     + eapply Hupd_rem; eauto.
   - (* Unknown *) cbn in Hmu. inversion Hmu; subst M'. eapply Hupd_rem; eauto.
   - (* Mutate *) cbn in Hmu. inversion Hmu; subst M'. exact HM.
+  - (* MutateNone *) cbn in Hmu. inversion Hmu; subst M'. exact HM.
   - (* Return *) cbn in Hmu. destruct (mem x M) eqn:Ex; [|discriminate]. auto.
   - (* SeqN *)
     cbn in Hmu. destruct (must_alias prog c1 M (flag s)) as [M1|] eqn:E1; [|discriminate].
@@ -573,7 +585,8 @@ Proof.
     inversion Hmu; subst M'.
     assert (HM1 : forall x, mem x (minus M (bound c)) = true -> env s1 x = v0).
     { intros x Hx. rewrite mem_minus in Hx. apply andb_true_iff in Hx. destruct Hx as [Hx1 Hx2].
-      rewrite (exec_unbound c s (Normal s1) H x); [auto|]. destruct (mem x (bound c)); [discriminate|reflexivity]. }
+      pose proof (exec_unbound c s (Normal s1) H x) as Hu. cbn [st_of] in Hu. rewrite Hu; [auto|].
+      destruct (mem x (bound c)); [discriminate|reflexivity]. }
     apply (IHexec2 (minus M (bound c)) (minus M (bound c)) v0); [|exact HM1].
     apply exec_flag in H. cbn [st_of] in H. rewrite H.
     cbn [must_alias]. rewrite minus_idem, E1. reflexivity.
@@ -593,7 +606,8 @@ Proof.
     destruct (must_alias prog h (minus M (bound c)) (flag s)) as [M2|] eqn:E2; [|discriminate]. inversion Hmu; subst M'.
     assert (HM1 : forall x, mem x (minus M (bound c)) = true -> env s1 x = v0).
     { intros x Hx. rewrite mem_minus in Hx. apply andb_true_iff in Hx. destruct Hx as [Hx1 Hx2].
-      rewrite (exec_unbound c s (Raised s1) H x); [auto|]. destruct (mem x (bound c)); [discriminate|reflexivity]. }
+      pose proof (exec_unbound c s (Raised s1) H x) as Hu. cbn [st_of] in Hu. rewrite Hu; [auto|].
+      destruct (mem x (bound c)); [discriminate|reflexivity]. }
     apply exec_flag in H. cbn [st_of] in H. rewrite <- H in E2.
     specialize (IHexec2 (minus M (bound c)) M2 v0 E2 HM1). destruct o; auto.
     intros x Hx. rewrite mem_inter in Hx. apply andb_true_iff in Hx. destruct Hx. auto.
@@ -609,9 +623,9 @@ Proof.
       { rewrite forallb_forall in Hfl. specialize (Hfl b (flags_of_complete _ _ _ H0)).
         destruct b; [discriminate|reflexivity]. }
       subst b.
-      assert (HMc : forall x, mem x [p] = true ->
-                 env (mkst (bind_params (fparams fd) (map (env s) (a :: args))) (heap s) (next s) false) x = v0).
-      { intros x Hx. cbn in Hx. rewrite orb_false_r in Hx. apply String.eqb_eq in Hx. subst x.
+      assert (HMc : forall z, mem z [p] = true ->
+                 env (mkst (bind_params (fparams fd) (map (env s) (a :: args))) (heap s) (next s) false) z = v0).
+      { intros z Hz. cbn in Hz. rewrite orb_false_r in Hz. apply String.eqb_eq in Hz. subst z.
         cbn [env]. rewrite Hps. cbn [map bind_params]. unfold upd_env. rewrite String.eqb_refl. auto. }
       specialize (IHexec [p] Mc v0 Hmc HMc).
       pose proof (always_returns_sound _ _ _ H1 Har) as Hnn.
